@@ -66,6 +66,20 @@ func runC28(c *Ctx) {
 		cv.RequireCallArgs("D0-every-construction-is-a-candidate", 1, ck+"newDMG", "arg2", "arg3", "arg4")
 	}
 	if v := c.View("(*" + ck + "pathSolution).Path"); v != nil {
+		hopFieldProvenance(c, v, "H1-hop-field-provenance")
+		c28InfoField(c, v, ck)
+	}
+	c28Rest(c, ck)
+}
+
+// hopFieldProvenance: every hop field of a combined path is copied, all four
+// members, from ONE input hop field - the AS entry's regular hop entry, or for a
+// peering hop the peer entry edge.Peer-1. Registered under C28 (well-formed
+// paths) and C30 (the advertised expiry is the minimum over the hop fields that
+// are actually in the path: a peering hop with the regular entry's ExpTime makes
+// an expired path look alive).
+func hopFieldProvenance(c *Ctx, v *FnView, rule string) {
+	{
 		// H1: group stores into HopField-typed allocs per (alloc, block)
 		type key struct {
 			alloc ssa.Value
@@ -118,7 +132,7 @@ func runC28(c *Ctx) {
 			same := len(prefixes) == 4 && prefixes[0] == prefixes[3]
 			okSrc := same && (strings.HasSuffix(prefixes[0], ".HopEntry.HopField") || strings.Contains(prefixes[0], "peer") ||
 				strings.Contains(prefixes[0], "PeerEntries["))
-			c.Check(complete && okSrc, "H1-hop-field-provenance", construct, k.blk.Instrs[0].Pos(),
+			c.Check(complete && okSrc, rule, construct, k.blk.Instrs[0].Pos(),
 				fmt.Sprintf("sets %v; all four members must be copied from one input hop field", g))
 		}
 		// the peer entry selected is edge.Peer-1 of the AS entry, the regular entry is the AS entry's
@@ -133,8 +147,13 @@ func runC28(c *Ctx) {
 				okPeer = true
 			}
 		}
-		c.Check(okPeer, "H1-hop-field-provenance", v.Name()+":peer-entry-selection", v.Fn.Pos(),
+		c.Check(okPeer, rule, v.Name()+":peer-entry-selection", v.Fn.Pos(),
 			"peer := asEntry.PeerEntries[edge.Peer-1]")
+	}
+}
+
+func c28InfoField(c *Ctx, v *FnView, ck string) {
+	{
 		// I1: info field
 		v.RequireStore("I1-info-field", 1, "local:complit.Timestamp", "pkg/private/util.TimeToSecs(*.segment.PathSegment.Info.Timestamp)")
 		v.RequireStore("I1-info-field", 1, "local:complit.SegID", ck+"calculateBeta(*)")
@@ -155,6 +174,9 @@ func runC28(c *Ctx) {
 		c.Check(okRev, "I1-info-field", v.Name()+":reverse-only-down-segments", v.Fn.Pos(),
 			fmt.Sprintf("%d slices.Reverse call(s), all on the down-segment edge", len(rev)))
 	}
+}
+
+func c28Rest(c *Ctx, ck string) {
 	if fn := c.Fn("(*" + ck + "inputSegment).IsDownSeg"); fn != nil {
 		down := c.Const("pkg/private/ctrl/path_mgmt/proto.PathSegType_down")
 		RunTable(c, &TableSpec{Rule: "I1-info-field", Fn: fn, NoInline: noInlineDefault,
